@@ -726,7 +726,8 @@ func c16Suite(t *testing.T, env *verifx.Env, res *verifx.Result, suffix string, 
 		rec(0, map[string]any{})
 		// the "arguments" member as a whole: null, a non-object, an empty object.  null stands for "no
 		// arguments" (= {}); a non-object is never valid for an object schema.
-		for _, rawArgs := range []string{"null", "{}", "5", `"x"`, "[]", "true"} {
+		// (strings that *spell* JSON values - arguments left serialized by a sloppy client - are strings: not objects)
+		for _, rawArgs := range []string{"null", "{}", "5", `"x"`, "[]", "true", `"{}"`, `" {} "`, `"{\"a\":5}"`, `"{\"a\":5,\"s\":\"x\",\"b\":true}"`, `"null"`, `"[]"`, `""`, `[{}]`, "0", "false", "1.5"} {
 			idx, mine := in.Next()
 			if !mine {
 				continue
